@@ -59,6 +59,10 @@ fixed("FX-C10-03", "C10", "a395240", "data race on FieldQuery.hash (W/W and R/W 
 fixed("FX-C11-02", "C11", "10c1296", "a DebugDOT(w) writer given without Debug() was written to (206 bytes) and closed by a later unrelated Debug() call: Option.DebugDOTOut/DebugOut survived in the pooled context")
 
 fixed("FX-C07-02", "C07", "b177bea", "stream struct-key lookup read through the stale data pointer of the previous buffer after a refill inside an escaped key (checkptr: pointer arithmetic result points to invalid allocation in decoder.char)")
+fixed("FX-C15-01", "C15", "e5ea2d2", "an escaped key that is only a prefix of a field name selected the field ({\"\\u0061\":5} set Abcde; was KF-C15-03): the early-match test compared the escaped byte length of the key")
+fixed("FX-C15-02", "C15", "17431c1", "two-character escapes in struct keys skipped the following byte ({\"x\\/y\":1} missed the field x/y and set x/; {\"x\\/\":1} failed with 'unexpected end of JSON input'), in buffer and stream mode")
+fixed("FX-C05-01", "C05", "17431c1", "\\u in a struct key accepted any four bytes as hex digits: Unmarshal({\"\\u\"061b\":1}, &struct{A int}{}) = nil")
+fixed("FX-C02-03", "C02", "17431c1", "Decoder.Decode({\"\\ud83dx\":5,\"A\":1}) into a struct failed with 'expected colon after object key' (lone high surrogate in a key moved the cursor too far); two high halves in a row became one U+FFFD")
 
 # ------------------------------------------------------------------ C05
 ALL15 = r"(Valid|Unmarshal:.+|Decode:.+)"
@@ -161,7 +165,7 @@ WILD = r"(token:.+|panic:.+|fatal:.+|checkptr:.+|asan:.+|array-len|missing-membe
 def enc_features(prop, monitor, pfx):
     E = None
     known(pfx + "-ORDER", prop, monitor, E, r"order:by-escaped-key", r".*",
-          'map keys "\u2028x" and "true": go-json emits "\u2028x" first', "internal/encoder/vm*/vm.go OpMapEnd: members are sorted by the already escaped key bytes (a backslash sorts before letters)",
+          'map keys "\u2028x" and "true": go-json emits "\u2028x" first', "internal/encoder/vm*/vm.go OpMapEnd: members are sorted by the already written key bytes - escapes and closing quote included, so a backslash sorts before letters, \"a b\" sorts before \"a\" (space < quote), and distinct Go keys written alike (invalid bytes -> \\ufffd) are tied and keep the random map iteration order",
           "another mis-ordering that is exactly the order of the escaped keys", "sorting happens after key encoding in all four interpreters")
     known(pfx + "-PTR2", prop, r"(%s|process)" % monitor, E, WILD, r".* @ feature:ptr2\+",
           'Marshal(&&map[uint8]int16{..}) reads a garbage map header (fatal out of memory); ***RawMessage, **T behind fields give null/garbage',
@@ -247,6 +251,10 @@ known("KF-C13-04", "C13", V, None, r"(bytes-differ:.+|panic:.+|variant-error|mem
 known("KF-C13-05", "C13", V, None, r"(bytes-differ:.+|panic:.+|variant-error)", r"(/internal/encoder\.AppendMarshalJSONIndent|.*) @ feature:(ptr-to-marshaler|array1-ptr-shaped-elem)",
       'MarshalIndent([]*json.RawMessage{nil}) panics (AppendMarshalJSONIndent lacks the nil check AppendMarshalJSON has)', "internal/encoder/encoder.go AppendMarshalJSONIndent", "see KF-C13-04", "see KF-C13-04")
 
+known("KF-C13-06", "C13", V, None, r"members-reordered:tied-names", r".*",
+      'map[string]int{"\\xc2":1,"\\xdf":2}: both names are written as "\\ufffd"; which member comes first follows Go\'s map iteration order, so Marshal(v), Marshal(&v) and Marshal([]any{v}) (and two calls of the same entry point) can differ',
+      "same root cause as KF-C01-ORDER: internal/encoder/vm*/ sort map members by the already-escaped name bytes; distinct Go keys whose escaped spellings coincide are tied and keep the order of the (randomised) map iteration",
+      "other re-orderings restricted to members whose written names are equal", "sorting by the raw key would remove the ties")
 # ------------------------------------------------------------------ C04
 FEATURE_ROOT = {
  "ptr2\\+": ("KF-C01-PTR2", "pointer chains of depth >= 2 are mis-indirected by the encoder"),
@@ -347,9 +355,6 @@ known("KF-C15-01", "C15", FS, "decode", r"fields-set-differ", r"fallback:casefol
 known("KF-C15-02", "C15", FS, "decode", r"fields-set-differ", r"bitmap(8|16):casefold-unicode(\(ambiguous\))?:[a-z+-]+:(buffer|stream):(missed|wrong-field)",
       '{"BB\u00c9":1} does not reach the field tagged bb\u00e9 (encoding/json folds non-ASCII letters too)', "internal/decoder/struct.go largeToSmallTable: ASCII-only folding in the bitmap lookup",
       "other missed non-ASCII case folds", "needs Unicode simple folding in the bitmap tables")
-known("KF-C15-03", "C15", FS, "decode", r"fields-set-differ", r"bitmap(8|16):(unrelated|prefix|extension):(part|full)-escaped:(buffer|stream):spurious",
-      '{"\\u0042":1} sets the field named bA; {"\\u0061":5} sets Ab', "internal/decoder/struct.go decodeKeyByBitmap*: the early-match test compares the escaped byte length of the key with the field's length",
-      "other spurious matches by escaped keys in the bitmap lookup", "needs the decoded length in the early-match test")
 known("KF-C15-04", "C15", FS, "decode", r"verdict", r"bitmap(8|16):[a-z()-]+:full-escaped:stream:go-error",
       'Decoder fed 5-byte chunks fails on {"\\u0062\\u0062":1} with "invalid character u as escaped char"', "internal/decoder/struct.go decodeKeyCharByUnicodeRuneStream: refill inside a \\u escape of a key (see C09)",
       "other stream errors on fully escaped keys", "see C09")
